@@ -1,6 +1,7 @@
 package main
 
 import (
+	"regexp"
 	"fmt"
 	"go/token"
 	"go/types"
@@ -507,6 +508,11 @@ func (o *Obl) smtText(withModel bool) (string, error) {
 	b.WriteString("; function:   " + o.Func + "\n")
 	b.WriteString("; clause:     " + o.Clause + "\n")
 	b.WriteString("(set-option :produce-models true)\n(set-logic ALL)\n")
+	if o.Raw == "" {
+		// only the spec definitions this function's VC mentions (directly or through other definitions): unused ones
+		// change nothing logically, but they do perturb the solvers' heuristics
+		pre = vc.prunedPrelude(pre)
+	}
 	b.WriteString(pre)
 	if o.Raw != "" {
 		b.WriteString("; ---- lemma body\n")
@@ -522,9 +528,16 @@ func (o *Obl) smtText(withModel bool) (string, error) {
 		b.WriteString(l)
 		b.WriteString("\n")
 	}
+	var relevant map[string]bool
+	if o.Sliced {
+		relevant = o.cone()
+	}
 	for _, l := range vc.lines[:o.Prefix] {
 		if o.Isolated && strings.HasPrefix(l, "(assert") {
 			continue // a lemma over the contract's own clauses: proved from the earlier clauses alone
+		}
+		if o.Sliced && strings.HasPrefix(l, "(assert") && !mentionsAny(l, relevant) {
+			continue // sliced attempt: only assumptions that talk about something the goal depends on (fewer hypotheses: sound)
 		}
 		b.WriteString(l)
 		b.WriteString("\n")
@@ -540,6 +553,203 @@ func (o *Obl) smtText(withModel bool) (string, error) {
 		b.WriteString("(get-model)\n")
 	}
 	return b.String(), nil
+}
+
+type preForm struct {
+	text string
+	kind string // head of the form
+	name string
+	toks []string
+}
+
+var preFormCache = map[string][]preForm{}
+
+// splitForms cuts SMT-LIB text into its top-level forms (comments between forms are dropped).
+func splitForms(text string) []preForm {
+	if f, ok := preFormCache[text]; ok {
+		return f
+	}
+	var out []preForm
+	depth, start := 0, -1
+	for i := 0; i < len(text); i++ {
+		c := text[i]
+		switch {
+		case c == ';':
+			for i < len(text) && text[i] != '\n' {
+				i++
+			}
+		case c == '"':
+			i++
+			for i < len(text) && text[i] != '"' {
+				i++
+			}
+		case c == '|':
+			i++
+			for i < len(text) && text[i] != '|' {
+				i++
+			}
+		case c == '(':
+			if depth == 0 {
+				start = i
+			}
+			depth++
+		case c == ')':
+			depth--
+			if depth == 0 && start >= 0 {
+				t := text[start : i+1]
+				toks := symRe.FindAllString(stripComments(t), -1)
+				f := preForm{text: t, toks: toks}
+				if len(toks) > 0 {
+					f.kind = toks[0]
+				}
+				if len(toks) > 1 {
+					f.name = toks[1]
+				}
+				out = append(out, f)
+				start = -1
+			}
+		}
+	}
+	preFormCache[text] = out
+	return out
+}
+
+func stripComments(t string) string {
+	if !strings.Contains(t, ";") {
+		return t
+	}
+	var b strings.Builder
+	for _, l := range strings.Split(t, "\n") {
+		if i := strings.Index(l, ";"); i >= 0 {
+			l = l[:i]
+		}
+		b.WriteString(l)
+		b.WriteString("\n")
+	}
+	return b.String()
+}
+
+// prunedPrelude drops the function definitions / declarations (and the axioms about them) that nothing in this VC's
+// context or obligations refers to. Sound: an unused definition constrains nothing; a dropped axiom only weakens.
+func (vc *VC) prunedPrelude(pre string) string {
+	if vc.needed == nil {
+		need := map[string]bool{}
+		add := func(t string) {
+			for _, tok := range symRe.FindAllString(t, -1) {
+				need[tok] = true
+			}
+		}
+		for _, l := range vc.decls {
+			add(l)
+		}
+		for _, l := range vc.lines {
+			add(l)
+		}
+		for _, ob := range vc.obls {
+			add(ob.PC)
+			add(ob.Goal)
+		}
+		vc.needed = need
+	}
+	forms := splitForms(pre)
+	specName := map[string]bool{}
+	for _, f := range forms {
+		switch f.kind {
+		case "define-fun", "declare-fun", "define-fun-rec", "declare-const":
+			specName[f.name] = true
+		}
+	}
+	need := map[string]bool{}
+	for k := range vc.needed {
+		need[k] = true
+	}
+	keep := make([]bool, len(forms))
+	for i := len(forms) - 1; i >= 0; i-- {
+		f := forms[i]
+		switch f.kind {
+		case "define-fun", "declare-fun", "define-fun-rec", "declare-const":
+			keep[i] = need[f.name]
+		case "assert":
+			for _, t := range f.toks {
+				if specName[t] && need[t] {
+					keep[i] = true
+					break
+				}
+			}
+		default:
+			keep[i] = true
+		}
+		if keep[i] {
+			for _, t := range f.toks {
+				need[t] = true
+			}
+		}
+	}
+	var b strings.Builder
+	for i, f := range forms {
+		if keep[i] {
+			b.WriteString(f.text)
+			b.WriteString("\n")
+		}
+	}
+	return b.String()
+}
+
+var symRe = regexp.MustCompile(`[^\s()]+`)
+
+// cone: the declared symbols the goal depends on, through the definitions of the context.
+func (o *Obl) cone() map[string]bool {
+	vc := o.vc
+	defs := map[string]string{}
+	declared := map[string]bool{}
+	note := func(l string) {
+		switch {
+		case strings.HasPrefix(l, "(define-fun "):
+			f := strings.Fields(l[len("(define-fun "):])
+			if len(f) > 0 {
+				defs[f[0]] = l
+			}
+		case strings.HasPrefix(l, "(declare-const "), strings.HasPrefix(l, "(declare-fun "):
+			f := strings.Fields(l[strings.Index(l, " ")+1:])
+			if len(f) > 0 {
+				declared[f[0]] = true
+			}
+		}
+	}
+	for _, l := range vc.decls {
+		note(l)
+	}
+	for _, l := range vc.lines[:o.Prefix] {
+		note(l)
+	}
+	seen := map[string]bool{}
+	out := map[string]bool{}
+	var visit func(text string)
+	visit = func(text string) {
+		for _, tok := range symRe.FindAllString(text, -1) {
+			if seen[tok] {
+				continue
+			}
+			seen[tok] = true
+			if declared[tok] {
+				out[tok] = true
+			}
+			if d, ok := defs[tok]; ok {
+				visit(d)
+			}
+		}
+	}
+	visit(o.Goal)
+	return out
+}
+
+func mentionsAny(l string, set map[string]bool) bool {
+	for _, tok := range symRe.FindAllString(l, -1) {
+		if set[tok] {
+			return true
+		}
+	}
+	return false
 }
 
 // opaqueView turns every define-fun with parameters into a declare-fun (same signature, no body).
